@@ -4,9 +4,10 @@ import DarkluaModel.C13.Spec
 /-! Line-protocol handlers for property C13. -/
 namespace DarkluaModel.C13
 
-def dialect? : String → Option Spec.Dialect
-  | "luau" => some .luau
-  | "lua51" => some .lua51
+def dialect? : String → Option (Spec.Dialect × Bool)
+  | "luau" => some (.luau, true)
+  | "lua51" => some (.lua51, true)          -- stock build: LUA_COMPAT_LSTR = 1
+  | "lua51manual" => some (.lua51, false)   -- grammar of the manual only
   | _ => none
 
 def showOptBytes : Option (List UInt8) → String
@@ -83,6 +84,11 @@ def showDesc : Option Spec.NumDesc → String
   | some (.dec d e) => s!"dec:{d}:{e}"
   | none => "none"
 
+def showNumExpr : NumExpr UInt64 → String
+  | .lit n => "L(" ++ showNumLit n ++ ")"
+  | .neg e => "N(" ++ showNumExpr e ++ ")"
+  | .div a b => "D(" ++ showNumExpr a ++ "," ++ showNumExpr b ++ ")"
+
 def handle (op : String) (args : List String) : String :=
   match op, args with
   | "wstr", [h] =>
@@ -95,7 +101,7 @@ def handle (op : String) (args : List String) : String :=
     | none => "bad-args"
   | "decode", [d, h] =>
     match dialect? d, hexToBytes? h with
-    | some d, some t => showOptBytes (Spec.decodeLiteral d t)
+    | some (d, c), some t => showOptBytes (Spec.decodeLiteral d c t)
     | _, _ => "bad-args"
   | "dseg", [h] =>
     match hexToBytes? h with
@@ -108,8 +114,8 @@ def handle (op : String) (args : List String) : String :=
   | "str", [hv, hr] =>
     match hexToBytes? hv, hexToBytes? hr with
     | some v, some r =>
-      " ".intercalate [bytesToHex (writeString v), showOptBytes1 (Spec.decodeLiteral .luau r),
-        showOptBytes1 (Spec.decodeLiteral .lua51 r), toString (straddles v), toString (lua51Safe v),
+      " ".intercalate [bytesToHex (writeString v), showOptBytes1 (Spec.decodeLiteral .luau true r),
+        showOptBytes1 (Spec.decodeLiteral .lua51 true r), toString (straddles v), toString (lua51Safe v),
         toString (usesLongBracket v)]
     | _, _ => "bad-args"
   -- combined for interpolated segments: the real output is decoded followed by each terminator
@@ -125,6 +131,20 @@ def handle (op : String) (args : List String) : String :=
     | some l, some r =>
       bytesToHex (writeNumber floatOps l) ++ " " ++ showOptBits (Spec.evalWritten r)
     | _, _ => "bad-args"
+  -- model of `Expression::from(f64)`: the tree it builds
+  | "fromf64", [f] =>
+    match wireBits? f with
+    | some b => showNumExpr (fromF64 floatFromOps b)
+    | none => "bad-args"
+  -- hypotheses of the number-parsing theorems
+  | "expoverflows", [h] =>
+    match hexToBytes? h with
+    | some t => toString (expOverflows t)
+    | none => "bad-args"
+  | "hexfloat", [h] =>
+    match hexToBytes? h with
+    | some t => toString (hexFloatShape t)
+    | none => "bad-args"
   | "wnum", [lit] =>
     match numLit? lit with
     | some l => bytesToHex (writeNumber floatOps l)
